@@ -651,6 +651,11 @@ impl Engine for CrashEngine {
         }
         acc.steps += prefix.len() as u64;
         let n = q.len();
+        if n <= 10 {
+            // distinct (pre-crash state, operation family) pairs, by state signature
+            let c0 = q.contents();
+            acc.states.insert(mix(state_sig(&q, &c0), 0));
+        }
         // 2. the faulty operation
         let mut cfg_op = cfg.clone();
         cfg_op.weights = fault_op_weights();
